@@ -64,6 +64,8 @@ def classify(res, prog, ref):
             res.label("outcome:" + o)
     if runcheck.typed_texts(prog):
         res.label("one-text-several-step-types")
+    if any((s.get("emit") or {}).get("relog") for f in prog["features"] for lst in _step_lists(f) for s in lst):
+        res.label("step-reconfigures-logging")
 
 
 def _step_lists(feat):
@@ -334,6 +336,7 @@ def core_enumeration():
 
 
 def run_case_st(**kw):
+    kw.setdefault("relog", True)
     return gen.program_st(**kw).map(lambda p: {"kind": "run", "program": p})
 
 
@@ -401,10 +404,11 @@ def required_labels(tier):
             "meta:add_pass", "meta:add_deselected", "meta:permute", "cli", "runner-route", "flag:wip_flag", "abort:step",
             "abort:hook-abort:before_scenario", "abort:hook-interrupt:before_scenario", "autoretry",
             "autoretry:outline-as-a-whole", "autoretry:verdict:failed", "autoretry:verdict:passed"] + \
-           ["outcome:" + o for o in OUTCOMES] + ["outcome:typed", "one-text-several-step-types"]
+           ["outcome:" + o for o in OUTCOMES] + ["outcome:typed", "one-text-several-step-types", "step-reconfigures-logging"]
 
 
 KNOWN_PREDICATES = {}
 
 
 RULE = RULE + " " + ('Further sub-checks: run-time exclusion (element.skip() in a before-hook), hooks that read element statuses, step texts bound per step type (passing @given / failing @then / no @when definition of one text), and behave.contrib.scenario_autoretry (outlines patched as a whole or row by row): the verdict is that of the final attempts.')
+RULE = RULE + " " + ('Passing steps may reconfigure logging for good (root handlers cleared, basicConfig(force=True), dictConfig), as an application under test does.')
